@@ -136,11 +136,13 @@ func (w *tcpWorld) newHost(kind byte) *tcpHost {
 	case 'T':
 		h.fd, h.port = tcpRawSocket(true)
 		// fill the accept queue until a dial times out
-		for i := 0; i < 8; i++ {
-			c, err := net.DialTimeout("tcp", h.addr(), 60*time.Millisecond)
+		for i, misses := 0, 0; i < 10 && misses < 2; i++ {
+			c, err := net.DialTimeout("tcp", h.addr(), 80*time.Millisecond)
 			if err != nil {
-				break
+				misses++
+				continue
 			}
+			misses = 0
 			h.fill = append(h.fill, c)
 		}
 	}
@@ -637,6 +639,10 @@ func runTcpScript(c *hx.Ctx, sc tcpScript, r *hx.Rng) (string, bool) {
 		}
 		tok, ok := w.step(st, r)
 		if !ok {
+			return "", false
+		}
+		if tok == "h" && strings.Contains(sc.hosts, "T") && !w.slow {
+			// a black hole that accepted after all (its accept queue was not full): the environment, not MOSN
 			return "", false
 		}
 		o := w.settle()
